@@ -313,6 +313,35 @@ example : ∃ st, call (α := ℚ) id .standardize (.sparse [[1, 3]]) [] [] {} =
     call (α := ℚ) id .scale (.dense [5]) [] [("rescale", .flag true)] st = .error (.bind .typeError) := by
   refine ⟨⟨some 0, some (some 2), some (some 1)⟩, ?_, ?_, ?_, ?_⟩ <;> decide +kernel
 
+open ScaleEntry in
+/-- C13.2f  A flag is a flag whichever boolean type carries it: through every entry point, in every
+position (positional or keyword, any parameter), from every state, handing over a numpy boolean
+(`numpy.bool_` scalar, 0-d boolean array — e.g. the result of `numpy.any(...)`) gives exactly the result
+of handing over the Python `bool` of the same truth value; in particular it is never read as the NUMBER
+1 / 0 (`Written.number`).  Together with `scale_unit_std` / `center_zero_mean` this is "zero mean and unit
+standard deviation for all center/scale flags" for flags of either type. -/
+theorem numpy_bool_is_flag (sqrt : α → α) (fn : Fn) (data : Data α) (pos : List (Written α))
+    (kw : List (String × Written α)) (st : Scale.State α) :
+    let py : Written α → Written α := fun a => match a with | .npBool b => .pyBool b | a => a
+    callWritten sqrt fn data pos kw st
+      = callWritten sqrt fn data (pos.map py) (kw.map fun (k, a) => (k, py a)) st := by
+  intro py
+  have h : ∀ a : Written α, (py a).toArg = a.toArg := by
+    intro a; cases a <;> rfl
+  simp only [callWritten, List.map_map]
+  congr 1
+  · exact List.map_congr_left fun a _ => (h a).symm
+  · exact List.map_congr_left fun ⟨k, a⟩ _ => by simp [h a]
+
+open ScaleEntry in
+/-- non-vacuity / the two readings differ: `scale([1, 3], center=numpy.True_, scale=False)` centres at the
+mean 2, whereas the NUMBER 1 as centre would give `[0, 2]`. -/
+example : callWritten (α := ℚ) id .scale (.dense [1, 3]) [] [("center", .npBool true), ("scale", .pyBool false)] {}
+      = .ok ([-1, 1], ⟨some 1, some (some 2), some none⟩) ∧
+    callWritten (α := ℚ) id .scale (.dense [1, 3]) [] [("center", .number 1), ("scale", .pyBool false)] {}
+      = .ok ([0, 2], ⟨some 1, some (some 1), some none⟩) := by
+  constructor <;> decide +kernel
+
 /-- C13.1f  `standardize(x)` over `ℝ` with the real square root: for every vector that is not constant,
 the output has mean 0 and POPULATION standard deviation (`ddof = 0`, the default read from the live
 signature) 1, and the mean and that standard deviation are what is recorded. -/
